@@ -4,16 +4,17 @@ CONSTANTS
  Mols = {}
  Dev = "none"
  FixedOrder = TRUE
- Paths <- MCPaths
+ Paths <- MCPathOne
  MaxOps = 5
  WithFF = FALSE
- MolIdx <- MCMolAll
+ MolIdx <- MCMolTwo
  MsgKinds <- MCMsgNone
  MaxMsgs = 0
- WithEnv = FALSE
+ WithEnv = TRUE
  HDev = "none"
 INVARIANT ReadIsCurrent
 INVARIANT FsHoldsWrite
 INVARIANT HistExport
 PROPERTY OnlyWritesChangeFiles
+PROPERTY EnvLeavesRunDirectory
 CHECK_DEADLOCK FALSE
